@@ -63,6 +63,9 @@ UnifiedOk(r) == r.unifiedErr # "" \/
                 LET p == Patch(Lines(r.b), r.hunks, 1) IN p[1] /\ p[2] = Lines(r.a)
 ChangedOnly(r) == r.unifiedErr # "" \/ \A i \in 1..Len(r.hunks) : \E j \in 1..Len(r.hunks[i].lines) : r.hunks[i].lines[j].k # " "
 
+\* the rendered text, read back by a line-oriented patch reader (harness), carries exactly the lines of the hunks judged above
+TextFaithful(r) == r.unifiedErr # "" \/ (r.textErr = "" /\ Len(r.tlines) = Len(r.hunks) /\ \A i \in 1..Len(r.hunks) : r.tlines[i] = r.hunks[i].lines)
+
 Judge(r) ==
   IF ~EditsValid(r.b, r.edits) THEN "invalid-edits"
   ELSE IF Apply(r.b, r.edits) # r.a THEN "apply-differs"
@@ -70,6 +73,7 @@ Judge(r) ==
   ELSE IF r.applied # r.a THEN "package-apply-differs"
   ELSE IF ~UnifiedOk(r) THEN "unified-not-a-patch"
   ELSE IF ~ChangedOnly(r) THEN "unified-empty-hunk"
+  ELSE IF ~TextFaithful(r) THEN "unified-text-differs-from-hunks"
   ELSE "ok"
 
 Init == l = 1 /\ verdict = "ok"
